@@ -38,6 +38,7 @@ func c01nodeseq(cw *caseWriter, tier string, r *rng) {
 
 func runC01(cw *caseWriter, tier string, seed uint64) {
 	runC01cluster(cw, tier, seed)
+	runC14cand(cw, tier, &rng{s: seed*41 + 9}) // candidate loop against scripted peers, configurations with non-voters included
 	r := &rng{s: seed}
 	c01nodeseq(cw, tier, r)
 	if tier == "quick" {
